@@ -222,7 +222,7 @@ def check(prog, rep, tier):
     # Open.parse: capability 65 replaces self.asn with the unpacked 4-octet value
     op = prog.func('yabgp.message.open.Open.parse')
     good = False
-    for node in ast.walk(op.node):
+    for node in [n for m_ in prog.cls('yabgp.message.open.Open').methods.values() for n in ast.walk(m_.node)]:
         if isinstance(node, ast.If) and 'FOUR_BYTES_ASN' in src_of(node.test):
             txt = ' '.join(src_of(s) for s in node.body)
             direct = [s for s in node.body if isinstance(s, ast.Assign) and src_of(s.targets[0]) == 'self.asn']
